@@ -59,9 +59,9 @@ def history(r, maxlen=40, jumps=True):
         elif jumps and k < 12:
             out.append("jump")
         elif jumps and k < 13:
-            out.append("split")
+            out.append(r.choice(["split", "split", "split32", "splitf:%d" % r.choice([1, 3, 4, 7, 8, 9, r.below(40)])]))
         else:
-            out.append("clone")
+            out.append(r.choice(["clone", "clone", "clone32", "clonef:%d" % r.choice([1, 3, 4, 7, 8, 9, r.below(40)])]))
     return out
 
 
